@@ -17,7 +17,7 @@ CONSTANTS
   XSpecs <- F1XSpecs
   XPosVals <- F1XPos
   XExtraVals <- XOne
-  XKwNames <- KwABW
+  XKwNames <- KwEdge
   XKwVals <- F1XKw
   XKwExtraVals <- XOne
 INVARIANT Modelled
